@@ -35,6 +35,11 @@ func Spec(id, tier string) *core.CheckSpec {
 		cs.Batches = []core.Batch{
 			{Engine: "cachesim", Label: "deposit-histories", Seconds: sec(20, 300), Opt: core.Options{}},
 		}
+	case "C20":
+		cs.Batches = []core.Batch{
+			{Engine: "poolsim", Label: "fault-free", Seconds: sec(15, 240), Opt: core.Options{Params: p("faults", "0")}},
+			{Engine: "poolsim", Label: "dup-late-reorder", Seconds: sec(15, 240), Opt: core.Options{Params: p("faults", "1")}},
+		}
 	default:
 		return nil
 	}
